@@ -153,6 +153,13 @@ QStringList QXmppVCardManager::discoveryFeatures() const
 bool QXmppVCardManager::handleStanza(const QDomElement &element)
 {
     if (element.tagName() == u"iq" && QXmppVCardIq::isVCard(element)) {
+        // Only responses are handled here. A vCard request sent to this client is left to the
+        // client's fallback, which answers it with an error instead of dropping it silently.
+        const auto type = element.attribute(u"type"_s);
+        if (type == u"get" || type == u"set") {
+            return false;
+        }
+
         QXmppVCardIq vCardIq;
         vCardIq.parse(element);
 
